@@ -3,4 +3,4 @@
 S=$1; P=$2; T=${3:-quick}; D=/tmp/seedcheck_manual
 rsync -rlpgoD --checksum --delete --exclude target --exclude .git /repo/ $D/
 (cd / && git apply --unsafe-paths --directory=$D $S/patch.diff) || patch -p1 -d $D < $S/patch.diff
-/verif/check $P --tier $T --repo $D --no-evidence 2>&1 | grep -v "^KNOWN" | cut -c1-500 | tail -8
+/verif/check $P --tier $T --repo $D --no-evidence 2>&1 | grep -v "^KNOWN" | cut -c1-500 | awk '/VIOLATION/{print} {a[NR]=$0} END{for(i=(NR>8?NR-7:1);i<=NR;i++) if (a[i] !~ /VIOLATION/) print a[i]}'
